@@ -31,10 +31,35 @@ def guarded(f, *a):
         signal.setitimer(signal.ITIMER_REAL, 0)
 
 
-def unicode_digit_mutations(g, hl):
-    """value-preserving Unicode decimal digits at every digit position of the header and block section"""
+def length_positions(g):
+    """positions of every character that belongs to a length / count field: the 4-digit block length, the
+    2-digit block count, and per optional block its 2-hex length or its extended length-of-length and length"""
+    pos = [1, 2, 3, 4, 12, 13]
+    try:
+        n = int(g[12:14])
+        i = 16
+        for _ in range(n):
+            pos += [i + 2, i + 3]
+            ln = int(g[i + 2:i + 4], 16)
+            if ln == 0:
+                ll = int(g[i + 4:i + 6], 16)
+                pos += list(range(i + 4, i + 6 + 2 * ll))
+                ln = int(g[i + 6:i + 6 + 2 * ll], 16)
+            i += ln
+    except ValueError:
+        pass
+    return [p for p in pos if p < len(g)]
+
+
+def unicode_digit_mutations(g, hl, rng, full):
+    """value-preserving Unicode decimal digits: at EVERY digit of a length / count field (always), and at the
+    other digit positions of the header and block section (all in thorough, a sample in quick)"""
     out = []
-    for p in range(0, min(hl + 2, len(g))):
+    lp = set(length_positions(g))
+    others = [p for p in range(0, min(hl + 2, len(g))) if g[p].isdigit() and p not in lp]
+    if not full:
+        others = rng.sample(others, min(len(others), 12))
+    for p in sorted(lp) + others:
         if g[p].isdigit():
             for base in (0xFF10, 0x0660, 0x1D7D8):
                 out.append(g[:p] + chr(base + int(g[p])) + g[p + 1:])
@@ -66,6 +91,11 @@ def mutations(rng, g, hl):
         out.append(g[:12] + "01" + g[14:16] + blk + g[hl:])
         out.append(fix(g[:12] + "01" + g[14:16] + blk + g[hl:]))
         out.append(fix(g[:12] + "02" + g[14:16] + "pb04" + blk + g[hl:]))
+    for pid in ("pb", "Pb", "pB", "PB"):
+        for pbdata in ("é", "ÿÿÿÿ", "\x80", "０"):
+            blk = pid + "%02X" % (4 + len(pbdata)) + pbdata
+            out.append(fix(g[:12] + "01" + g[14:16] + blk + g[hl:]))
+            out.append(fix(g[:12] + "02" + g[14:16] + "KS051" + blk + g[hl:]))
     for bid in ("**", "é1", "K", "\x00\x00", "Pb", "pB"):
         out.append(fix(g[:12] + "01" + g[14:16] + bid + "08" + "1234" + g[hl:]))
     return out
@@ -81,8 +111,10 @@ def run(ctx):
     unwrap_items, load_items, wrap_items = [], [], []
     unwrap_items.append(LEGACY_WITNESS)
     for v in "ABCD":
-        for _ in range(ctx.n(2, 10)):
-            c = t.gen_case(rng, version=v, profile=rng.choice(["none", "few", "boundary", "boundary"]), keylen=rng.choice([0, 8, 16, 24]))
+        for bi in range(ctx.n(3, 10)):
+            c = t.gen_case(rng, version=v, profile=("boundary" if bi == 0 else rng.choice(["none", "few", "boundary"])), keylen=rng.choice([0, 8, 16, 24]))
+            if bi == 0:
+                c["blocks"] = [("X1", t.rstr(rng, 260, t.PRINT)), ("X2", t.rstr(rng, 7, t.PRINT))]
             h = t.impl_header(c)
             try:
                 g = tr31.wrap(c["kbpk"], h, c["key"], c["mask"])
@@ -92,8 +124,7 @@ def run(ctx):
             muts = mutations(rng, g, hl)
             if not ctx.thorough:
                 muts = rng.sample(muts, min(len(muts), 90))
-            ud = unicode_digit_mutations(g, hl)
-            muts += ud if (ctx.thorough or len(ud) < 60) else rng.sample(ud, 60)
+            muts += unicode_digit_mutations(g, hl, rng, ctx.thorough)
             for s in muts:
                 kb = c["kbpk"] if rng.random() < 0.8 else rng.randbytes(rng.randrange(0, 41))
                 unwrap_items.append((kb, s))
@@ -123,6 +154,14 @@ def run(ctx):
         s_ = hdr + t.rstr(rng, max(0, total - len(hdr)), tail_alpha)
         s_ = fix(s_)
         unwrap_items.append((rng.randbytes(rng.choice(t.KBPK_SIZES[v])), s_))
+    # serialisation of headers whose optional block data length sits around the short / extended boundary
+    for v in "ABCD":
+        for dl in range(246, 262):
+            hs = v + "0000P0TE00N0100" + "KS0002" + "%04X" % (dl + 10) + t.rstr(rng, dl, t.ALNUM)
+            wrap_items.append((rng.randbytes(t.KBPK_SIZES[v][-1]), hs, rng.randbytes(16), None))
+            if dl + 4 <= 255:
+                hs2 = v + "0000P0TE00N0100" + "KS" + "%02X" % (dl + 4) + t.rstr(rng, dl, t.ALNUM)
+                wrap_items.append((rng.randbytes(t.KBPK_SIZES[v][-1]), hs2, rng.randbytes(16), None))
     # every KBPK length 0..40 against valid blocks of each version
     for v in "ABCD":
         c = t.gen_case(rng, version=v, profile="few", keylen=16, mask=None)
@@ -150,6 +189,18 @@ def run(ctx):
         if b not in ("OK", "PsecError"):
             viol.append({"what": "unwrap escaped with a foreign exception / hang", "input": {"kbpk": kb.hex(), "string": s},
                          "expected": "Ok or HeaderError/KeyBlockError", "observed": b})
+    def load_then_str(x):
+        h = tr31.Header()
+        h.load(x)
+        str(h)
+        h.dump(16)
+
+    for kb_, hs_, _, _ in wrap_items:
+        b = guarded(load_then_str, hs_)
+        evals += 1
+        if b not in ("OK", "PsecError"):
+            viol.append({"what": "Header.load + str()/dump() escaped with a foreign exception", "input": {"string": hs_},
+                         "expected": "Ok or HeaderError", "observed": b})
     for s in load_items:
         b = guarded(tr31.Header().load, s)
         b2 = guarded(tr31.KeyBlock, b"", s)
